@@ -486,6 +486,25 @@ func c07Gen(t *rapid.T) c07Case {
 		}
 	}
 	plant(root, data)
+	// some nodes at the top level get a when that reads an earlier sibling leaf which has a default and holds it (or
+	// is not set): the condition is true, and has to stay true when the request trims that leaf from the answer
+	if rapid.IntRange(0, 2).Draw(t, "whens") == 0 {
+		var operand *dm.Node
+		for _, d := range m.Top {
+			if operand != nil && d.When == "" && (d.Kind == "leaf" || d.Kind == "container") && rapid.Bool().Draw(t, "when-here") {
+				d.When = operand.Name + " = '" + *operand.Default + "'"
+				if _, has := data[operand.Name]; has {
+					data[operand.Name] = *operand.Default
+				}
+			}
+			if d.Kind == "leaf" && d.Default != nil && d.When == "" && d.Type.Eff().Base != "empty" && !strings.ContainsAny(*d.Default, "'\"\\ ") {
+				switch d.Type.Eff().Base {
+				case "string", "int8", "int32", "int64", "uint16", "boolean", "enumeration":
+					operand = d
+				}
+			}
+		}
+	}
 	c := c07Case{Module: m, Data: data, Constrain: rapid.Bool().Draw(t, "constrain")}
 	c.Store = rapid.SampledFrom([]string{"", "", "", "json-reader", "xml-reader"}).Draw(t, "store")
 	if c.Store == "xml-reader" {
